@@ -1,6 +1,7 @@
 (* driver for ListModel (C04): one history per line -> one line of observables.
    input : <impl> <cap0> <op>@<cap>;<op>@<cap>;...      (cap = Cap() of the implementation
            after the call: the capacity oracle; `-` when unknown -> 0)
+           (b:.. and n:.. are Appends for the model: the harness only passes its argument differently)
            op = g:<i> | a:<x>,<y>,.. | i:<idx>:<x> | s:<idx>:<x> | d:<idx> | l | c | r:<stop> | v
            an op prefixed with `~` is NOT followed by the observers Len / AsSlice / Cap
    output: <res>|<len>|<contents>|<model's cap, diagnostic only>;...   stops after the first panic
@@ -23,8 +24,8 @@ let zs_of_string s =
 let op_of_string s =
   match split_on ':' s with
   | ["g"; i] -> OpGet (z_of_string i)
-  | ["a"] -> OpAppend []
-  | ["a"; xs] -> OpAppend (zs_of_string xs)
+  | ["a"] | ["b"] | ["n"] -> OpAppend []
+  | ["a"; xs] | ["b"; xs] | ["n"; xs] -> OpAppend (zs_of_string xs)
   | ["i"; i; x] -> OpAdd (z_of_string i, z_of_string x)
   | ["s"; i; x] -> OpSet (z_of_string i, z_of_string x)
   | ["d"; i] -> OpDelete (z_of_string i)
